@@ -6,10 +6,24 @@
         first+ncases-1 (first defaults to 0); prints the input distribution as JSON on
         stdout.  profile: mixed (default) | tiny | boundary | long
         (boundary: case i uses heap size 2 + i mod 299, i.e. every size 2..300 in turn)
-   run replay <hist> [<outhist>]
-        re-runs an existing history through the model: operations the model rejects are
-        dropped, the "!oom" markers are recomputed; prints the dump of the normalised
-        history on stdout and (optionally) writes the normalised history to <outhist>.
+   run gen <seed> <ncases> <outdir> large|largesmall <first> <K>
+        heaps around and above 2^16 cells (largesmall: the same generator on heaps of a few
+        hundred cells).  The extracted model is quadratic in the heap size (list append per
+        allocation: minutes for one 70000-cell history), so these histories are generated and
+        predicted by the imperative reference allocator `sim` below, in SPARSE dump mode; the
+        check cross-validates `sim` against the extracted model on the largesmall histories.
+   run replay [--sim] [--sparse <K>] <hist> [<outhist>]
+        re-runs an existing history through the model (--sim: through the reference
+        allocator): operations that are rejected are dropped, the "!oom" markers are
+        recomputed; prints the dump of the normalised history on stdout and (optionally)
+        writes the normalised history to <outhist>.
+
+   Sparse dump mode (--sparse K): a block is the full canonical dump when its index is 0, a
+   multiple of K, the last one, a collect/run operation or the operation right before a
+   collect/run; every other block is
+        @ <index> <operation text>
+        ret <n> | oom-expected free=<head>
+        ~ <free head> <w_index> <wb_top[0]> <wb_top[1]>
 
    The generator drives the *extracted* model (Gcmodel.step) to decide which operations are
    valid: an operation is emitted only when step answers SOk or SOom.
@@ -91,6 +105,8 @@ type hop =
   | HCollect of slot list
   | HRun of int * slot list
 
+let is_collection_op = function HCollect _ | HRun _ -> true | _ -> false
+
 let obj_to_model = function
   | Sc (k, p) -> M.OScalar (n_of_int k, nl p)
   | StrRef r -> M.OStrRef (n_of_int r)
@@ -114,7 +130,10 @@ let roots_of_slots sl =
 
 let ints l = String.concat " " (List.map string_of_int l)
 (* dump lines: every item is preceded by one blank (no trailing blanks, empty lists print nothing) *)
-let sp l = String.concat "" (List.map (fun i -> " " ^ string_of_int i) l)
+let sp l =
+  let b = Buffer.create 64 in
+  List.iter (fun i -> Buffer.add_char b ' '; Buffer.add_string b (string_of_int i)) l;
+  Buffer.contents b
 let cnt_ints l = if l = [] then string_of_int 0 else Printf.sprintf "%d %s" (List.length l) (ints l)
 
 let render_obj = function
@@ -233,23 +252,45 @@ let dump_obj b i o =
   | ArrRef r -> p b "c %d arrref %d\n" i r
   | Func (v, ip) -> p b "c %d func %d %d\n" i v ip
 
-(* head: "@ <index> <op text>" ; res: the line describing the result *)
-let dump (b : Buffer.t) (g : M.gc) (s : snap) (idx : int) (text : string) (res : string) =
-  let p = Printf.bprintf in
-  p b "@ %d %s\n%s\n" idx text res;
-  (match M.free_list g with
-   | Some l -> p b "free %d :%s\n" (int_of_n g.M.g_free) (sp (il l))
-   | None -> p b "free %d : !overrun\n" (int_of_n g.M.g_free));
-  p b "w %d\n" (if g.M.g_w then 1 else 0);
-  let l0 = il g.M.g_l0 and l1 = il g.M.g_l1 in
-  p b "L0 %d :%s\n" (List.length l0) (sp l0);
-  p b "L1 %d :%s\n" (List.length l1) (sp l1);
+(* what a full dump shows, independent of who computed it *)
+type view = {
+  v_free : int;
+  v_chain : int list option;       (* None: cycle / overrun *)
+  v_w : int;
+  v_l0 : int list;
+  v_l1 : int list;
+  v_marks : int list;
+  v_objs : hobj option array;
+}
+
+let view_of_model (g : M.gc) (s : snap) : view =
   let marks = ref [] in
   for i = s.size - 1 downto 0 do
     if M.tget g.M.g_mark (n_of_int i) then marks := i :: !marks
   done;
-  p b "marks :%s\n" (sp !marks);
-  Array.iteri (fun i o -> match o with Some o -> dump_obj b i o | None -> ()) s.objs
+  { v_free = int_of_n g.M.g_free;
+    v_chain = (match M.free_list g with Some l -> Some (il l) | None -> None);
+    v_w = (if g.M.g_w then 1 else 0); v_l0 = il g.M.g_l0; v_l1 = il g.M.g_l1;
+    v_marks = !marks; v_objs = s.objs }
+
+(* head: "@ <index> <op text>" ; res: the line describing the result *)
+let dump_view (b : Buffer.t) (v : view) (idx : int) (text : string) (res : string) =
+  let p = Printf.bprintf in
+  p b "@ %d %s\n%s\n" idx text res;
+  (match v.v_chain with
+   | Some l -> p b "free %d :%s\n" v.v_free (sp l)
+   | None -> p b "free %d : !overrun\n" v.v_free);
+  p b "w %d\n" v.v_w;
+  p b "L0 %d :%s\n" (List.length v.v_l0) (sp v.v_l0);
+  p b "L1 %d :%s\n" (List.length v.v_l1) (sp v.v_l1);
+  p b "marks :%s\n" (sp v.v_marks);
+  Array.iteri (fun i o -> match o with Some o -> dump_obj b i o | None -> ()) v.v_objs
+
+let dump (b : Buffer.t) (g : M.gc) (s : snap) (idx : int) (text : string) (res : string) =
+  dump_view b (view_of_model g s) idx text res
+
+let dump_sparse (b : Buffer.t) (fhead, w, t0, t1) (idx : int) (text : string) (res : string) =
+  Printf.bprintf b "@ %d %s\n%s\n~ %d %d %d %d\n" idx text res fhead w t0 t1
 
 (* ---------- parsing a history file ------------------------------------------------- *)
 exception Bad_format of string
@@ -335,44 +376,285 @@ let read_lines path =
     | exception End_of_file -> close_in ic; List.rev acc in
   go []
 
+let max_heap = 1 lsl 22
+
 let parse_history path : int * hop list =
   let lines = read_lines path in
-  let lines = List.mapi (fun i l -> (i + 1, l)) lines in
-  let lines = List.filter (fun (_, l) -> String.trim l <> "" && (String.trim l).[0] <> '#') lines in
-  match lines with
+  (* tail-recursive throughout: histories of the large profile have > 10^5 lines *)
+  let _, rev =
+    List.fold_left (fun (i, acc) l ->
+        let t = String.trim l in
+        (i + 1, if t = "" || t.[0] = '#' then acc else (i + 1, l) :: acc)) (0, []) lines in
+  match List.rev rev with
   | [] -> bad "empty history"
   | (n0, first) :: rest ->
     let size =
       match String.split_on_char ' ' (String.trim first) with
       | [ "size"; n ] -> parse_int n0 n
       | _ -> bad "line %d: expected 'size <n>'" n0 in
-    if size < 2 || size > 100000 then bad "size out of range (2..100000): %d" size;
-    size, List.map (fun (i, l) -> fst (parse_line i l)) rest
+    if size < 2 || size > max_heap then bad "size out of range (2..%d): %d" max_heap size;
+    size, List.rev (List.rev_map (fun (i, l) -> fst (parse_line i l)) rest)
+
+(* ---------- imperative reference allocator ------------------------------------------
+   The same functions as GC/GCModel.v (and gc.c), on arrays.  Used ONLY for heaps that are too
+   large for the extracted model; bin/check C09 compares it with the extracted model on the
+   `largesmall` histories in every run. *)
+type sim = {
+  z_size : int;
+  z_obj : hobj option array;
+  z_next : int array;
+  z_mark : Bytes.t;
+  z_list : int array array;
+  z_top : int array;
+  mutable z_w : int;
+  mutable z_free : int;
+}
+
+let sim_new size =
+  let next = Array.make size 0 in
+  for i = 1 to size - 1 do next.(i) <- i + 1 done;
+  next.(size - 1) <- 0;
+  { z_size = size; z_obj = Array.make size None; z_next = next; z_mark = Bytes.make size '\000';
+    z_list = [| Array.make size 0; Array.make size 0 |]; z_top = [| 0; 0 |]; z_w = 0; z_free = 1 }
+
+type rverdict = ROk of int | ROom | RRej of string
+
+let z_obj_at z a = if a >= 0 && a < z.z_size then z.z_obj.(a) else None
+let z_ref_ok z want r = r = 0 || (match z_obj_at z r with Some o -> want o | None -> false)
+let z_any _ = true
+let z_is_vec = function Vec _ -> true | _ -> false
+let z_is_arr = function Arr _ -> true | _ -> false
+let z_is_str = function Sc (6, _) -> true | _ -> false
+let z_obj_ok z = function
+  | Sc _ -> true
+  | StrRef r -> z_ref_ok z z_is_str r
+  | Vec l -> List.for_all (z_ref_ok z z_any) l
+  | VecRef r -> z_ref_ok z z_is_vec r
+  | Arr (_, l) -> List.for_all (z_ref_ok z z_any) l
+  | ArrRef r -> z_ref_ok z z_is_arr r
+  | Func (v, _) -> z_ref_ok z z_is_vec v
+
+let rec z_list_set l i v =
+  match l, i with
+  | [], _ -> None
+  | _ :: t, 0 -> Some (v :: t)
+  | h :: t, _ -> (match z_list_set t (i - 1) v with Some t' -> Some (h :: t') | None -> None)
+
+(* gc_mark / gc_mark_vec / gc_mark_arr with an explicit stack (the set of marked cells does not
+   depend on the visiting order) *)
+let z_mark_from z (root : int) =
+  let stack = ref [ root ] in
+  let marked a = Bytes.get z.z_mark a <> '\000' in
+  let set a = Bytes.set z.z_mark a '\001' in
+  let push_all l = List.iter (fun c -> stack := c :: !stack) l in
+  (* gc_mark_vec / gc_mark_arr *)
+  let mark_container a =
+    if a <> 0 && not (marked a) then begin
+      set a;
+      match z.z_obj.(a) with
+      | Some (Vec l) | Some (Arr (_, l)) -> push_all l
+      | _ -> failwith "sim: container expected (heap not closed)"
+    end in
+  while !stack <> [] do
+    (match !stack with
+     | [] -> ()
+     | a :: rest ->
+       stack := rest;
+       if a <> 0 then
+         match z.z_obj.(a) with
+         | None -> ()
+         | Some (Sc _) -> set a
+         | Some (StrRef r) -> if not (marked a) then begin set a; stack := r :: !stack end
+         | Some (Vec _) | Some (Arr _) -> mark_container a
+         | Some (VecRef r) | Some (ArrRef r) -> set a; mark_container r
+         | Some (Func (v, _)) -> set a; mark_container v)
+  done
+
+let z_mark_access z roots =
+  List.iter (fun r -> if r > 0 && Bytes.get z.z_mark r = '\000' then z_mark_from z r) roots
+
+let z_sweep z =
+  let w = z.z_w in
+  let b = 1 - w in
+  for i = 0 to z.z_top.(w) - 1 do
+    let idx = z.z_list.(w).(i) in
+    if Bytes.get z.z_mark idx = '\000' && z.z_obj.(idx) <> None then begin
+      z.z_obj.(idx) <- None;
+      z.z_next.(idx) <- z.z_free;
+      z.z_free <- idx
+    end else if Bytes.get z.z_mark idx <> '\000' then begin
+      Bytes.set z.z_mark idx '\000';
+      z.z_list.(b).(z.z_top.(b)) <- idx;
+      z.z_top.(b) <- z.z_top.(b) + 1
+    end
+  done;
+  z.z_top.(w) <- 0;
+  z.z_w <- b
+
+let sim_precheck z (h : hop) : string option =
+  match h with
+  | HAlloc (Sc (k, p)) ->
+    if not (valid_kind k) then Some "scalar kind"
+    else if k <> 6 && List.length p <> 1 then Some "scalar payload length"
+    else if k = 6 && List.exists (fun c -> c < 1 || c > 255) p then Some "string byte"
+    else None
+  | HAlloc (Arr (d, l)) ->
+    if d = [] then Some "array without dimension"
+    else if prod d <> List.length l then Some "array dims/elements mismatch"
+    else None
+  | HSetRef (w, a, _) ->
+    (match z_obj_at z a, w with
+     | Some (StrRef _), 0 | Some (VecRef _), 1 | Some (ArrRef _), 2 -> None
+     | _ -> Some "setref holder kind")
+  | HSetSc (k, a, p) ->
+    (match z_obj_at z a with
+     | Some (Sc (k', _)) when k' = k ->
+       if k <> 6 && List.length p <> 1 then Some "scalar payload length"
+       else if k = 6 && List.exists (fun c -> c < 1 || c > 255) p then Some "string byte"
+       else None
+     | _ -> Some "setsc holder kind")
+  | _ -> None
+
+let sim_apply z (h : hop) : rverdict =
+  match sim_precheck z h with
+  | Some why -> RRej why
+  | None ->
+    let rej = RRej "reject" in
+    match h with
+    | HAlloc o ->
+      if not (z_obj_ok z o) then rej
+      else if z.z_free = 0 then ROom
+      else begin
+        let loc = z.z_free in
+        z.z_obj.(loc) <- Some o;
+        z.z_free <- z.z_next.(loc);
+        z.z_list.(z.z_w).(z.z_top.(z.z_w)) <- loc;
+        z.z_top.(z.z_w) <- z.z_top.(z.z_w) + 1;
+        ROk loc
+      end
+    | HSetVec (a, i, v) ->
+      (match z_obj_at z a with
+       | Some (Vec l) when z_ref_ok z z_any v ->
+         (match z_list_set l i v with Some l' -> z.z_obj.(a) <- Some (Vec l'); ROk 0 | None -> rej)
+       | _ -> rej)
+    | HSetArr (a, i, v) ->
+      (match z_obj_at z a with
+       | Some (Arr (d, l)) when z_ref_ok z z_any v ->
+         (match z_list_set l i v with Some l' -> z.z_obj.(a) <- Some (Arr (d, l')); ROk 0 | None -> rej)
+       | _ -> rej)
+    | HAppend (a, v) ->
+      (match z_obj_at z a with
+       | Some (Arr ([ d0 ], l)) when z_ref_ok z z_any v ->
+         z.z_obj.(a) <- Some (Arr ([ d0 + 1 ], List.rev (v :: List.rev l))); ROk 0
+       | _ -> rej)
+    | HSetRef (_, a, r) ->
+      (match z_obj_at z a with
+       | Some (StrRef _) when z_ref_ok z z_is_str r -> z.z_obj.(a) <- Some (StrRef r); ROk 0
+       | Some (VecRef _) when z_ref_ok z z_is_vec r -> z.z_obj.(a) <- Some (VecRef r); ROk 0
+       | Some (ArrRef _) when z_ref_ok z z_is_arr r -> z.z_obj.(a) <- Some (ArrRef r); ROk 0
+       | _ -> rej)
+    | HSetFuncVec (a, v) ->
+      (match z_obj_at z a with
+       | Some (Func (_, ip)) when z_ref_ok z z_is_vec v -> z.z_obj.(a) <- Some (Func (v, ip)); ROk 0
+       | _ -> rej)
+    | HSetSc (_, a, p) ->
+      (match z_obj_at z a with
+       | Some (Sc (k, _)) -> z.z_obj.(a) <- Some (Sc (k, p)); ROk 0
+       | _ -> rej)
+    | HCollect sl ->
+      let roots = roots_of_slots sl in
+      if List.for_all (z_ref_ok z z_any) roots then begin
+        z_mark_access z roots; z_sweep z; ROk 0
+      end else rej
+    | HRun (gv, sl) ->
+      let roots = roots_of_slots sl in
+      if List.for_all (z_ref_ok z z_any) roots && z_ref_ok z z_any gv then begin
+        if not (5 * z.z_top.(z.z_w) < 4 * z.z_size) then begin
+          z_mark_access z roots;
+          if gv > 0 then z_mark_from z gv;
+          z_sweep z
+        end;
+        ROk 0
+      end else rej
+
+let view_of_sim z : view =
+  let chain =
+    let rec go a n acc =
+      if a = 0 then Some (List.rev acc)
+      else if n = 0 || a < 0 || a >= z.z_size then None
+      else go z.z_next.(a) (n - 1) (a :: acc) in
+    go z.z_free z.z_size [] in
+  let lst k = Array.to_list (Array.sub z.z_list.(k) 0 z.z_top.(k)) in
+  let marks = ref [] in
+  for i = z.z_size - 1 downto 0 do if Bytes.get z.z_mark i <> '\000' then marks := i :: !marks done;
+  { v_free = z.z_free; v_chain = chain; v_w = z.z_w; v_l0 = lst 0; v_l1 = lst 1;
+    v_marks = !marks; v_objs = z.z_obj }
+
+(* ---------- a machine = something that executes operations and can be observed --------- *)
+type machine = {
+  m_apply : hop -> rverdict;
+  m_view : unit -> view;
+  m_summary : unit -> int * int * int * int;      (* free head, w, top0, top1 *)
+}
+
+let model_machine size : machine =
+  let g = ref (M.gc_new (n_of_int size)) in
+  { m_apply = (fun h ->
+        match apply !g h with
+        | VOk (g', r) -> g := g'; ROk r
+        | VOom -> ROom
+        | VReject why -> RRej why);
+    m_view = (fun () -> view_of_model !g (take_snap !g));
+    m_summary = (fun () ->
+        (int_of_n !g.M.g_free, (if !g.M.g_w then 1 else 0), List.length !g.M.g_l0, List.length !g.M.g_l1)) }
+
+let sim_machine size : machine =
+  let z = sim_new size in
+  { m_apply = sim_apply z;
+    m_view = (fun () -> view_of_sim z);
+    m_summary = (fun () -> (z.z_free, z.z_w, z.z_top.(0), z.z_top.(1))) }
 
 (* ---------- replay ----------------------------------------------------------------- *)
-let res_line = function
-  | VOk (_, r) -> Printf.sprintf "ret %d" r
-  | VOom -> "oom-expected free=0"
-  | VReject _ -> assert false
-
-let replay path outhist =
-  let size, ops = parse_history path in
-  let b = Buffer.create 65536 and hb = Buffer.create 4096 in
-  let g = ref (M.gc_new (n_of_int size)) in
-  let s = ref (take_snap !g) in
-  Printf.bprintf hb "size %d\n" size;
-  dump b !g !s 0 (Printf.sprintf "new %d" size) "ret 0";
-  let idx = ref 0 and k = ref 0 in
+(* pass 1: which operations are accepted (and which allocations are out of memory) *)
+let accepted (mk : int -> machine) size (ops : hop list) : (hop * bool) array =
+  let m = mk size in
+  let k = ref 0 in
+  let acc = ref [] in
   List.iter (fun h ->
       incr k;
-      match apply !g h with
-      | VReject why -> Printf.eprintf "dropped op %d (%s): %s\n" !k why (render h)
-      | v ->
-        incr idx;
-        let text = render h ^ (match v with VOom -> " !oom" | _ -> "") in
-        (match v with VOk (g', _) -> g := g'; s := take_snap g' | _ -> ());
-        Printf.bprintf hb "%s\n" text;
-        dump b !g !s !idx text (res_line v)) ops;
+      match m.m_apply h with
+      | RRej why -> Printf.eprintf "dropped op %d (%s): %s\n" !k why (render h)
+      | ROom -> acc := (h, true) :: !acc
+      | ROk _ -> acc := (h, false) :: !acc) ops;
+  Array.of_list (List.rev !acc)
+
+(* pass 2: dump.  sparse = 0: a full dump after every operation *)
+let run_dump (mk : int -> machine) size (ops : (hop * bool) array) (sparse : int)
+    (b : Buffer.t) (hb : Buffer.t) =
+  let m = mk size in
+  let n = Array.length ops in
+  Printf.bprintf hb "size %d\n" size;
+  dump_view b (m.m_view ()) 0 (Printf.sprintf "new %d" size) "ret 0";
+  Array.iteri (fun j (h, _) ->
+      let idx = j + 1 in
+      let v = m.m_apply h in
+      let text = render h ^ (match v with ROom -> " !oom" | _ -> "") in
+      let res = (match v with
+          | ROk r -> Printf.sprintf "ret %d" r
+          | ROom -> "oom-expected free=0"
+          | RRej why -> failwith ("operation rejected in the second pass: " ^ why)) in
+      Printf.bprintf hb "%s\n" text;
+      let full = sparse <= 0 || idx mod sparse = 0 || idx = n || is_collection_op h
+                 || (idx < n && is_collection_op (fst ops.(idx))) in
+      if full then dump_view b (m.m_view ()) idx text res
+      else dump_sparse b (m.m_summary ()) idx text res) ops
+
+let replay ~sim ~sparse path outhist =
+  let size, ops = parse_history path in
+  let mk = if sim then sim_machine else model_machine in
+  let acc = accepted mk size ops in
+  let b = Buffer.create 65536 and hb = Buffer.create 4096 in
+  run_dump mk size acc sparse b hb;
   print_string (Buffer.contents b);
   match outhist with
   | Some p -> let oc = open_out p in output_string oc (Buffer.contents hb); close_out oc
@@ -404,11 +686,13 @@ let size_bucket n =
   if n <= 5 then string_of_int n
   else if n <= 8 then "6-8" else if n <= 16 then "9-16" else if n <= 32 then "17-32"
   else if n <= 64 then "33-64" else if n <= 128 then "65-128" else if n <= 256 then "129-256"
-  else "257-300"
+  else if n <= 300 then "257-300" else if n < 65535 then "301-65534"
+  else if n <= 65538 then string_of_int n else if n <= 131072 then "65539-131072" else ">131072"
 let len_bucket n =
   if n <= 20 then "10-20" else if n <= 50 then "21-50" else if n <= 100 then "51-100"
   else if n <= 200 then "101-200" else if n <= 500 then "201-500" else if n <= 1000 then "501-1000"
-  else if n <= 2000 then "1001-2000" else if n <= 5000 then "2001-5000" else "5001-10000"
+  else if n <= 2000 then "1001-2000" else if n <= 5000 then "2001-5000" else if n <= 10000 then "5001-10000"
+  else if n <= 100000 then "10001-100000" else ">100000"
 
 let json_of_tbl t =
   let l = Hashtbl.fold (fun k v acc -> (k, v) :: acc) t [] in
@@ -897,30 +1181,267 @@ let gen_case (r : rng) profile i outdir : unit =
   w (Filename.concat outdir (Printf.sprintf "case%d.hist" i)) st.hist;
   w (Filename.concat outdir (Printf.sprintf "case%d.exp" i)) st.exp
 
-let gen seed ncases outdir profile first =
+(* ---------- large heaps (profile large / largesmall) --------------------------------
+   Generated and predicted with the reference allocator `sim`; see the header. *)
+let large_sizes = [| 70000; 65537; 131100; 65536; 65538; 100000; 65535; 66000; 90000; 140000 |]
+let small_sizes = [| 257; 300; 511; 640; 200; 333; 65; 1000 |]
+
+type lst = {
+  lr : rng;
+  z : sim;
+  mutable lops : hop list;               (* reversed *)
+  mutable ln : int;
+  mutable alive : int array;             (* cells allocated since the last collection + survivors *)
+  mutable nalive : int;
+  mutable lroots : int list;
+  mutable rootvec : int;                 (* a vector that is always passed as a root *)
+  mutable stuck : bool;                  (* an allocation answered out of memory *)
+}
+
+let ltop l = l.z.z_top.(l.z.z_w)
+
+let lpush_alive l a =
+  if l.nalive >= Array.length l.alive then begin
+    let na = Array.make (2 * Array.length l.alive + 16) 0 in
+    Array.blit l.alive 0 na 0 l.nalive; l.alive <- na
+  end;
+  l.alive.(l.nalive) <- a; l.nalive <- l.nalive + 1
+
+let lemit l (h : hop) : int option =
+  match sim_apply l.z h with
+  | RRej _ -> misc "proposals_rejected_by_model"; None
+  | ROom ->
+    l.lops <- h :: l.lops; l.ln <- l.ln + 1; l.stuck <- true;
+    tbl_incr st_ops "alloc" 1; misc "oom"; None
+  | ROk r ->
+    l.lops <- h :: l.lops; l.ln <- l.ln + 1;
+    tbl_incr st_ops (op_name h) 1;
+    (match h with HAlloc o -> tbl_incr st_kinds (kind_name o) 1; lpush_alive l r | _ -> ());
+    Some r
+
+(* allocate only while the allocated-list is shorter than [limit] *)
+let lalloc l limit o = if ltop l >= limit then None else lemit l (HAlloc o)
+
+let lref l =
+  if l.nalive = 0 || chance l.lr 10 then 0
+  else begin
+    let a = l.alive.(rint l.lr l.nalive) in
+    if l.z.z_obj.(a) <> None then a else 0
+  end
+let lref_where l pred =
+  (* a few random probes; nil if none fits *)
+  let rec go k =
+    if k = 0 || l.nalive = 0 then 0
+    else let a = l.alive.(rint l.lr l.nalive) in
+      match l.z.z_obj.(a) with Some o when pred o -> a | _ -> go (k - 1) in
+  go 12
+
+let lpayload r k =
+  match k with
+  | 1 -> [ (if chance r 10 then 2147483647 - rint r 3 else rint r 100000) ]
+  | 2 -> [ (if chance r 10 then (1 lsl 52) + rint r 1000 else rint r 1000000) ]
+  | 3 -> [ rint r 100000 ]
+  | 4 -> [ rint r 1000000 ]
+  | 5 -> [ rint r 128 ]
+  | 6 -> List.init (rint r 6) (fun _ -> rrange r 97 122)
+  | _ -> [ rint r (1 lsl 40) ]
+let lscalar r = let k = pick r scalar_kinds in Sc (k, lpayload r k)
+
+let lattach l x =
+  if l.rootvec <> 0 && x <> 0 then ignore (lemit l (HSetVec (l.rootvec, rint l.lr 8, x)))
+
+let lbulk l limit =
+  let r = l.lr in
+  let size = l.z.z_size in
+  let maxw = max 4 (min 400 (size / 30)) in
+  let keep x = if chance r 25 then lattach l x in
+  let guard = ref (4 * size + 100) in
+  while ltop l < limit && not l.stuck && !guard > 0 do
+    decr guard;
+    let x = rint r 100 in
+    if x < 55 then ignore (lalloc l limit (lscalar r))
+    else if x < 63 then begin
+      match lalloc l limit (Sc (6, lpayload r 6)) with
+      | Some s -> (match lalloc l limit (StrRef s) with Some h -> keep h | None -> ())
+      | None -> ()
+    end else if x < 71 then begin
+      (* short list (the C mark is recursive: depth stays small) *)
+      let rec go i prev =
+        if i = 0 then prev
+        else match lalloc l limit (Sc (1, [ i ])) with
+          | None -> prev
+          | Some v -> (match lalloc l limit (Vec [ v; prev ]) with Some c -> go (i - 1) c | None -> prev) in
+      keep (go (rrange r 2 40) 0)
+    end else if x < 76 then begin
+      let f = rrange r 3 maxw in
+      match lalloc l limit (Vec (List.init f (fun _ -> lref l))) with
+      | Some v -> keep v; if chance r 30 then (match lalloc l limit (VecRef v) with Some h -> keep h | None -> ())
+      | None -> ()
+    end else if x < 81 then begin
+      let n = rrange r 0 (maxw / 4) in
+      match lalloc l limit (Arr ([ n ], List.init n (fun _ -> lref l))) with
+      | Some a ->
+        ignore (lemit l (HAppend (a, lref l)));
+        if chance r 50 then ignore (lemit l (HAppend (a, lref l)));
+        (match lalloc l limit (ArrRef a) with Some h -> keep h | None -> keep a)
+      | None -> ()
+    end else if x < 85 then begin
+      match lalloc l limit (Vec (List.init (rrange r 0 4) (fun _ -> lref l))) with
+      | Some env -> (match lalloc l limit (Func (env, rint r 5000)) with Some f -> keep f | None -> ())
+      | None -> ()
+    end else if x < 89 then begin
+      match lalloc l limit (Vec [ 0; lref l ]) with
+      | Some a ->
+        if chance r 50 then ignore (lemit l (HSetVec (a, 0, a)))
+        else (match lalloc l limit (Func (a, 7)) with
+            | Some f -> ignore (lemit l (HSetVec (a, 0, f))); keep f
+            | None -> ());
+        keep a
+      | None -> ()
+    end else if x < 92 then begin
+      let d = [ rrange r 1 4; rrange r 0 5 ] in
+      match lalloc l limit (Arr (d, List.init (prod d) (fun _ -> lref l))) with
+      | Some a -> keep a
+      | None -> ()
+    end else if x < 96 then begin
+      match rint r 4 with
+      | 0 -> let a = lref_where l (function Sc _ -> true | _ -> false) in
+        (match l.z.z_obj.(a) with Some (Sc (k, _)) when a <> 0 -> ignore (lemit l (HSetSc (k, a, lpayload r k))) | _ -> ())
+      | 1 -> let a = lref_where l (function Vec (_ :: _) -> true | _ -> false) in
+        (match l.z.z_obj.(a) with
+         | Some (Vec v) when a <> 0 -> ignore (lemit l (HSetVec (a, rint r (min 8 (List.length v)), lref l)))
+         | _ -> ())
+      | 2 -> let a = lref_where l (function VecRef _ -> true | _ -> false) in
+        if a <> 0 then ignore (lemit l (HSetRef (1, a, lref_where l z_is_vec)))
+      | _ -> let a = lref_where l (function Func _ -> true | _ -> false) in
+        if a <> 0 then ignore (lemit l (HSetFuncVec (a, lref_where l z_is_vec)))
+    end else lattach l (lref l)
+  done
+
+let lstack l (roots : int list) : slot list =
+  let r = l.lr in
+  let sl = ref (List.map (fun a -> SA a) roots) in
+  (match roots with [] -> () | rs -> if chance r 50 then sl := SA (pickl r rs) :: !sl);
+  if chance r 50 then sl := SA 0 :: !sl;
+  for _ = 1 to rrange r 0 4 do
+    let v = if l.nalive > 0 && chance r 70 then l.alive.(rint r l.nalive) else rint r (l.z.z_size + 5) in
+    sl := (match rint r 3 with 0 -> SI v | 1 -> SS v | _ -> SU v) :: !sl
+  done;
+  let a = Array.of_list !sl in
+  shuffle r a; Array.to_list a
+
+let lcollect l (h : hop) =
+  let before = ltop l in
+  (match lemit l h with
+   | Some _ ->
+     let after = ltop l in
+     if after < before then misc "collections_freed_ge1";
+     if after >= 1 then misc "collections_retained_ge1";
+     if after = 0 then misc "collections_emptied_heap";
+     (* survivors are the new population *)
+     l.nalive <- 0;
+     for i = 0 to after - 1 do lpush_alive l l.z.z_list.(l.z.z_w).(i) done;
+     l.lroots <- List.filter (fun a -> l.z.z_obj.(a) <> None) l.lroots;
+     if l.rootvec <> 0 && l.z.z_obj.(l.rootvec) = None then l.rootvec <- 0;
+     l.stuck <- false
+   | None -> ())
+
+let new_rootvec l limit =
+  match lalloc l limit (Vec [ 0; 0; 0; 0; 0; 0; 0; 0 ]) with
+  | Some v -> l.rootvec <- v; l.lroots <- v :: l.lroots
+  | None -> ()
+
+let gen_large (r : rng) small i outdir sparse : unit =
+  let size = if small then pick r small_sizes else large_sizes.(i mod Array.length large_sizes) in
+  let z = sim_new size in
+  let l = { lr = r; z; lops = []; ln = 0; alive = Array.make 1024 0; nalive = 0; lroots = [];
+            rootvec = 0; stuck = false } in
+  let t = threshold size in
+  (* phase 0: a root set *)
+  new_rootvec l (size - 1);
+  for _ = 1 to 3 do
+    match lalloc l (size - 1) (lscalar r) with Some a -> l.lroots <- a :: l.lroots | None -> ()
+  done;
+  (* phase 1: bulk allocation up to one below the trigger of gc_run, run (nothing happens),
+     one more cell, run (collects) *)
+  lbulk l (t - 1);
+  if ltop l = t - 1 then begin
+    misc "run_one_below_threshold"; misc "run_below_threshold";
+    ignore (lemit l (HRun (0, lstack l l.lroots)));
+    ignore (lalloc l size (lscalar r));
+    if ltop l = t then begin
+      misc "run_at_threshold"; misc "run_triggered";
+      lcollect l (HRun ((if chance r 50 then l.rootvec else 0), lstack l l.lroots))
+    end
+  end;
+  (* phase 2: allocate again, in the cells that were just freed, until out of memory *)
+  lbulk l (size - 1);
+  for _ = 1 to 3 do
+    ignore (lemit l (HAlloc (if chance r 50 then lscalar r else Vec [ lref l ])))
+  done;
+  (* phase 3: collect with (almost) no roots *)
+  (match rint r 3 with
+   | 0 -> misc "collect_with_no_roots"; lcollect l (HCollect (lstack l []))
+   | 1 -> misc "run_triggered"; lcollect l (HRun (0, lstack l []))
+   | _ -> lcollect l (HCollect (lstack l (match l.lroots with a :: _ -> [ a ] | [] -> []))));
+  (* phase 4: a new population, a collection that keeps part of it, a few more cells *)
+  new_rootvec l (size - 1);
+  lbulk l (min (size - 1) (ltop l + max 20 (min 3000 (size / 10))));
+  lcollect l (HCollect (lstack l l.lroots));
+  lbulk l (min (size - 1) (ltop l + 10));
+  (* write history + expected (sparse) dump *)
+  let ops = Array.of_list (List.rev_map (fun h -> (h, false)) l.lops) in
+  let b = Buffer.create (1 lsl 20) and hb = Buffer.create (1 lsl 16) in
+  run_dump sim_machine size ops sparse b hb;
+  tbl_incr st_sizes (size_bucket size) 1;
+  tbl_incr st_lens (len_bucket l.ln) 1;
+  tbl_incr st_styles (if small then "largesmall" else "large") 1;
+  if size mod 5 = 0 then misc "heap_size_multiple_of_5" else misc "heap_size_not_multiple_of_5";
+  misc "histories";
+  tbl_incr st_misc "ops_total" l.ln;
+  let w path b = let oc = open_out path in Buffer.output_buffer oc b; close_out oc in
+  w (Filename.concat outdir (Printf.sprintf "case%d.hist" i)) hb;
+  w (Filename.concat outdir (Printf.sprintf "case%d.exp" i)) b
+
+let gen seed ncases outdir profile first sparse =
   (try Unix.mkdir outdir 0o755 with Unix.Unix_error (Unix.EEXIST, _, _) -> ());
   let r = rng_make seed in
-  for i = first to first + ncases - 1 do gen_case r profile i outdir done;
+  for i = first to first + ncases - 1 do
+    match profile with
+    | "large" -> gen_large r false i outdir sparse
+    | "largesmall" -> gen_large r true i outdir sparse
+    | _ -> gen_case r profile i outdir
+  done;
   Printf.printf "{\"seed\": %d, \"profile\": %S, \"ops\": %s, \"object_kinds\": %s, \"events\": %s, \"heap_sizes\": %s, \"history_lengths\": %s, \"styles\": %s, \"macros\": %s}\n"
     seed profile (json_of_tbl st_ops) (json_of_tbl st_kinds) (json_of_tbl st_misc)
     (json_of_tbl st_sizes) (json_of_tbl st_lens) (json_of_tbl st_styles) (json_of_tbl st_macros)
 
 let usage () =
-  prerr_endline "usage: run gen <seed> <ncases> <outdir> [mixed|tiny|boundary|long [first]]\n       run replay <hist> [<outhist>]";
+  prerr_endline "usage: run gen <seed> <ncases> <outdir> [mixed|tiny|boundary|long [first]]\n       run gen <seed> <ncases> <outdir> large|largesmall <first> <K>\n       run replay [--sim] [--sparse <K>] <hist> [<outhist>]";
   exit 2
 
 let () =
   try
+    let small_profiles = [ "mixed"; "tiny"; "boundary"; "long" ] in
     match Array.to_list Sys.argv with
-    | [ _; "gen"; seed; n; outdir ] -> gen (int_of_string seed) (int_of_string n) outdir "mixed" 0
+    | [ _; "gen"; seed; n; outdir ] -> gen (int_of_string seed) (int_of_string n) outdir "mixed" 0 0
     | [ _; "gen"; seed; n; outdir; profile ] ->
-      if not (List.mem profile [ "mixed"; "tiny"; "boundary"; "long" ]) then usage ();
-      gen (int_of_string seed) (int_of_string n) outdir profile 0
+      if not (List.mem profile small_profiles) then usage ();
+      gen (int_of_string seed) (int_of_string n) outdir profile 0 0
     | [ _; "gen"; seed; n; outdir; profile; first ] ->
-      if not (List.mem profile [ "mixed"; "tiny"; "boundary"; "long" ]) then usage ();
-      gen (int_of_string seed) (int_of_string n) outdir profile (int_of_string first)
-    | [ _; "replay"; h ] -> replay h None
-    | [ _; "replay"; h; o ] -> replay h (Some o)
+      if not (List.mem profile small_profiles) then usage ();
+      gen (int_of_string seed) (int_of_string n) outdir profile (int_of_string first) 0
+    | [ _; "gen"; seed; n; outdir; profile; first; k ] ->
+      if not (List.mem profile [ "large"; "largesmall" ]) || int_of_string k < 1 then usage ();
+      gen (int_of_string seed) (int_of_string n) outdir profile (int_of_string first) (int_of_string k)
+    | _ :: "replay" :: rest ->
+      let rec opts sim sparse = function
+        | "--sim" :: tl -> opts true sparse tl
+        | "--sparse" :: k :: tl -> opts sim (int_of_string k) tl
+        | [ h ] -> replay ~sim ~sparse h None
+        | [ h; o ] -> replay ~sim ~sparse h (Some o)
+        | _ -> usage () in
+      opts false 0 rest
     | _ -> usage ()
   with
   | Bad_format s -> Printf.eprintf "history format error: %s\n" s; exit 2
